@@ -136,9 +136,10 @@ def lastGate (g : Nat) : List Conn → Nat
 
 /-- what became of a message -/
 inductive Fate
-  /-- `HandleMessageEvent` for module `mod` at `time`, header `last_gate = last`; `seen` tells
-      whether `handle_message` reaches the user code (module active) -/
-  | handled (mod : Nat) (time : Nat) (last : Option Nat) (seen : Bool)
+  /-- `HandleMessageEvent` for module `mod` at `time` (which stamps `receiver_module_id = mod`),
+      header `last_gate = last`, `sender_module_id = sender`; `seen` tells whether `handle_message`
+      reaches the user code (module active at that time) -/
+  | handled (mod : Nat) (time : Nat) (last : Option Nat) (seen : Bool) (sender : Nat)
   /-- dropped on gate `g` because its owner is inactive -/
   | dropped (g : Nat) (time : Nat)
   | outOfFuel
@@ -148,23 +149,27 @@ deriving Repr, DecidableEq
 
 /-- `handle_with_sink` from the connection `(g, came)` at time `t`, iterated over the
     `MessageExitingConnection` events an idle channel schedules (`now + delay`, `con = next`):
-    every loop iteration and every channel exit is one step. -/
-def forward (net : Net) (owner : Nat → Nat) (active : Nat → Bool) :
+    every loop iteration and every channel exit is one step.  `active m t` = module `m` is active
+    at time `t` (`is_active()` is read when the message stands on a gate of `m`); `sender` is
+    `header.sender_module_id`, which nothing on the way rewrites. -/
+def forward (net : Net) (owner : Nat → Nat) (active : Nat → Nat → Bool) (sender : Nat) :
     Nat → Nat → Bool → Nat → Option Nat → Fate
   | 0, _, _, _, _ => .outOfFuel
   | fuel + 1, g, came, t, last =>
     match nextHop net g came with
-    | none => .handled (owner g) t last (active (owner g))
+    | none => .handled (owner g) t last (active (owner g) t) sender
     | some next =>
-      if !active (owner g) then .dropped g t
-      else forward net owner active fuel next.peer next.peerSlot (t + next.chan.getD 0) (some next.peer)
+      if !active (owner g) t then .dropped g t
+      else forward net owner active sender fuel next.peer next.peerSlot (t + next.chan.getD 0) (some next.peer)
 
-/-- `send_at(msg, gate, send_time)` with `send_time ≥ now` (`send` : `send_time = now`):
-    `Connection::new(gate)` (panics on a transit gate), header `last_gate = gate`, then the walk —
-    inline for an immediate send, as a `MessageExitingConnection` event at `send_time` otherwise. -/
-def send (net : Net) (owner : Nat → Nat) (active : Nat → Bool) (fuel : Nat) (g : Nat)
+/-- `send_at(msg, gate, send_time)` by module `sender` with `send_time ≥ now` (`send` :
+    `send_time = now`): `buf_send_at` stamps `sender_module_id = current().id()` first — before the
+    immediate / delayed split —, `Connection::new(gate)` panics on a transit gate, header
+    `last_gate = gate`, then the walk: inline for an immediate send, as a
+    `MessageExitingConnection` event at `send_time` otherwise. -/
+def send (net : Net) (owner : Nat → Nat) (active : Nat → Nat → Bool) (sender : Nat) (fuel : Nat) (g : Nat)
     (sendTime : Nat) : Fate :=
-  if (net g).len ≤ 1 then forward net owner active fuel g true sendTime (some g) else .sendPanic
+  if (net g).len ≤ 1 then forward net owner active sender fuel g true sendTime (some g) else .sendPanic
 
 /-- total delay of the channels on a list of hops -/
 def delaySum (hops : List Conn) : Nat := (hops.map (·.chan.getD 0)).sum
